@@ -28,6 +28,10 @@ VERIF = os.path.dirname(HERE)
 DRIVER = os.path.join(VERIF, 'lean', '.lake', 'build', 'bin', 'driver')
 
 
+REAL_PERF_NS = time.perf_counter_ns
+REAL_PERF = time.perf_counter
+
+
 class VClock:
     def __init__(self):
         self.ns = 0
@@ -129,6 +133,34 @@ def all_addr_tokens(a):
 
 def _noop_wait(x):
     return None
+
+
+def cfg_tokens(L):
+    """model configuration tokens of a constructed layer (float-valued parameters converted by the real code)"""
+    p = L.params
+    c = ['stmin=%d' % p.stmin, 'bs=%d' % p.blocksize, 'tfc=%d' % L.timer_rx_fc.timeout,
+         'tcf=%d' % L.timer_rx_cf.timeout, 'wft=%d' % p.wftmax, 'txdl=%d' % p.tx_data_length,
+         'mfs=%d' % p.max_frame_size, 'fd=%d' % p.can_fd, 'brs=%d' % p.bitrate_switch,
+         'dtat=%d' % p.default_target_address_type.value, 'rle=%d' % p.rate_limit_enable,
+         'listen=%d' % p.listen_mode, 'blocking=%d' % p.blocking_send]
+    if p.tx_padding is not None:
+        c.append('pad=%d' % p.tx_padding)
+    if p.tx_data_min_length is not None:
+        c.append('minlen=%d' % p.tx_data_min_length)
+    if p.override_receiver_stmin is not None:
+        try:
+            t = isotp.protocol.Timer(0)
+            t.set_timeout(p.override_receiver_stmin)
+            c.append('ovr=%d' % t.timeout)
+        except (OverflowError, ValueError):
+            pass        # conversion itself fails: outside the model; the judges see what the code does with it
+    rl = L.rate_limiter
+    try:
+        c.append('rlw=%d' % math.floor(Fraction(rl.window_size_sec) * 10**9))
+        c.append('rlb=%d' % math.floor(rl.window_bit_max))
+    except (OverflowError, ValueError):
+        pass
+    return c
 
 
 class ImplError(Exception):
@@ -255,29 +287,7 @@ class ImplRunner:
 
         L.rx_queue.put = put
         self.layers[i] = L
-        p = L.params
-        c = ['stmin=%d' % p.stmin, 'bs=%d' % p.blocksize, 'tfc=%d' % L.timer_rx_fc.timeout,
-             'tcf=%d' % L.timer_rx_cf.timeout, 'wft=%d' % p.wftmax, 'txdl=%d' % p.tx_data_length,
-             'mfs=%d' % p.max_frame_size, 'fd=%d' % p.can_fd, 'brs=%d' % p.bitrate_switch,
-             'dtat=%d' % p.default_target_address_type.value, 'rle=%d' % p.rate_limit_enable,
-             'listen=%d' % p.listen_mode, 'blocking=%d' % p.blocking_send]
-        if p.tx_padding is not None:
-            c.append('pad=%d' % p.tx_padding)
-        if p.tx_data_min_length is not None:
-            c.append('minlen=%d' % p.tx_data_min_length)
-        if p.override_receiver_stmin is not None:
-            try:
-                t = isotp.protocol.Timer(0)
-                t.set_timeout(p.override_receiver_stmin)
-                c.append('ovr=%d' % t.timeout)
-            except (OverflowError, ValueError):
-                pass        # conversion itself fails: outside the model; the judges see what the code does with it
-        rl = L.rate_limiter
-        try:
-            c.append('rlw=%d' % math.floor(Fraction(rl.window_size_sec) * 10**9))
-            c.append('rlb=%d' % math.floor(rl.window_bit_max))
-        except (OverflowError, ValueError):
-            pass
+        c = cfg_tokens(L)
         self.plain(' '.join(toks + c), 'ok')
 
     def do_send(self, op):
